@@ -8,6 +8,7 @@ import (
 	"sort"
 	"strings"
 	"sync"
+	"time"
 )
 
 // ---- deterministic PRNG (splitmix64): every random choice of a run derives from VERIF_SEED ----
@@ -125,4 +126,15 @@ func unhx(s string) []byte {
 		panic(err)
 	}
 	return b
+}
+
+// closeSoon closes something that may never come back from Close (a connection whose driver panicked inside
+// database/sql keeps its lock for good): after the time limit the harness goes on without it
+func closeSoon(closer interface{ Close() error }) {
+	done := make(chan struct{})
+	go func() { defer close(done); safeCall(func() { closer.Close() }) }()
+	select {
+	case <-done:
+	case <-time.After(3 * time.Second):
+	}
 }
